@@ -394,6 +394,32 @@ def run(ctx):
         if not frozen and (st.kind != 'value' or inst.z != 3):
             ctx.violation('frozen', 'special', i, {**wit, 'setattr(z)': st.brief()}, mech='non-frozen:assignment-refused')
             return
+        if not frozen:
+            # the value assigned to the init=False field is part of the instance: copies carry it
+            for cname, op in (('copy', copy.copy), ('deepcopy', copy.deepcopy)):
+                o = observe(op, inst)
+                ctx.count('copy_checks')
+                if o.kind != 'value' or getattr(o.val, 'z', None) != 3 or o.val.a != 1 or (eq and not (o.val == inst)) or o.val.__pane_set__ != inst.__pane_set__:
+                    ctx.violation('copy', 'special', i, {**wit, 'operation': cname, 'result': o.brief(),
+                                                         'result_z': repr(getattr(o.val, 'z', '<unset>')) if o.kind == 'value' else None},
+                                  mech=f"{cname}:init-false-field-lost")
+                    return
+        # repr of a subclass that adds fields, after the base class has been repr'd: every repr-field of the SUBCLASS, in order
+        base_first = rng.random() < 0.7
+        rbase = type(f"VSB{next(_serial)}", (env.PaneBase,), {'__annotations__': {'a': int, 'opt': t.Optional[int], 'name': t.Optional[str]}, 'opt': 5, 'name': 'n',
+                                                               '__module__': __name__}, frozen=frozen, eq=eq)
+        if base_first:
+            repr(rbase(1))
+        sub = type(f"VSS{next(_serial)}", (rbase,), {'__annotations__': {'extra': str, 'more': int}, 'extra': 'e', 'more': 2, '__module__': __name__})
+        si = sub(1, extra='E')
+        r = observe(repr, si)
+        ctx.count('repr_checks')
+        names = [nm for nm in ('a', 'opt', 'name', 'extra', 'more') if True]
+        pos = [r.val.find(f"{nm}=") for nm in names] if r.kind == 'value' else []
+        if r.kind != 'value' or any(p_ < 0 for p_ in pos) or pos != sorted(pos) or "extra='E'" not in r.val or not r.val.startswith(sub.__name__ + '('):
+            ctx.violation('repr', 'special', i, {'class': sub.__name__, 'base_repr_first': base_first, 'repr': r.brief(), 'expected_fields_in_order': names},
+                          mech='repr:subclass-fields-missing-or-misordered')
+            return
         ctx.case(('special', frozen, eq), nontrivial=True)
 
     drive.for_each_case(ctx, 'special', 60, body_special, gen=lambda c, r: Ty('int'))
